@@ -188,14 +188,18 @@ def coq_project():
         sh("coq_makefile -f _CoqProject -o Makefile", cwd=COQ, check=True)
 
 
+def _coq_make_nolock(targets, timeout=1500):
+    coq_project()
+    t0 = time.time()
+    rc, out, err = sh(["make", "-j%d" % NPROC] + targets, cwd=COQ, timeout=timeout)
+    log("coq make %s: rc=%d in %.1fs" % (" ".join(targets), rc, time.time() - t0))
+    return rc, out + "\n" + err
+
+
 def coq_make(targets, timeout=1500):
     """Full .vo build (never -vos) of the given targets and their cones."""
     with Lock("coq"):
-        coq_project()
-        t0 = time.time()
-        rc, out, err = sh(["make", "-j%d" % NPROC] + targets, cwd=COQ, timeout=timeout)
-        log("coq make %s: rc=%d in %.1fs" % (" ".join(targets), rc, time.time() - t0))
-        return rc, out + "\n" + err
+        return _coq_make_nolock(targets, timeout)
 
 
 def coq_flags():
@@ -268,13 +272,15 @@ def check_proofs(prop, extra_targets=()):
     hits = scan_forbidden()
     if hits:
         res["failures"].append("forbidden declarations: " + "; ".join(hits[:10]))
-    # force the property file itself to be re-checked on every run
-    for ext in (".vo", ".vok", ".vos", ".glob"):
-        try:
-            os.remove(os.path.join(COQ, "props", prop + ext))
-        except OSError:
-            pass
-    rc, out = coq_make(["props/%s.vo" % prop] + list(extra_targets))
+    # force the property file itself to be re-checked on every run; deleting, building and reading the
+    # output happen under one lock so that two concurrent checks cannot steal each other's output
+    with Lock("coq"):
+        for ext in (".vo", ".vok", ".vos", ".glob"):
+            try:
+                os.remove(os.path.join(COQ, "props", prop + ext))
+            except OSError:
+                pass
+        rc, out = _coq_make_nolock(["props/%s.vo" % prop] + list(extra_targets))
     if rc != 0:
         m = re.search(r'File "([^"]+)", line (\d+)[^\n]*\n((?:.*\n){0,12})', out)
         where = ("%s line %s: %s" % (m.group(1), m.group(2), m.group(3).strip()[:600])) if m else out[-1500:]
